@@ -194,7 +194,7 @@ type Cfg struct {
 	Spy               bool `json:"spy,omitempty"`
 	Observe           bool `json:"observe,omitempty"` // call track.Use at conn.Write and in the callbacks (C11; linear in the number of freed buffers)
 	FailWriteAt       int  `json:"fail_write_at,omitempty"`
-	Move              bool `json:"move,omitempty"` // the allocator moves a buffer that has to grow (like mempool.NewAligned)
+	Move              bool `json:"move,omitempty"`           // the allocator moves a buffer that has to grow (like mempool.NewAligned)
 	PanicAtEvent      int  `json:"panic_at_event,omitempty"` // the k-th callback (1-based) panics
 	ExecuteFalse      bool `json:"execute_false,omitempty"`  // Conn.Execute refuses every job (closed nbio.Conn)
 }
